@@ -58,6 +58,7 @@ def matrix_elements(profile, g):
         els += [["DG", 1, [g, g]], ["Regge", 1], ["HHJ", 1], ["GLS", 1], ["RTrows", g, 1]]
         n = g * (g + 1) // 2
         els.append(["sym", g, [["P", 1 + (k % 3), []] for k in range(n)]])
+        els.append(["sym", g, [["DGp", 1] if k % 2 else ["P", 2, []] for k in range(n)]])
     return els
 
 
@@ -356,6 +357,8 @@ class Gen:
                     if shape[0] in (2, 3):
                         add("cofac", "compound")
                     add("diag", "compound")
+            if "geotensor" in O and not free and shape in ((self.g,), (self.g, self.g)):
+                opts.extend(["JK"] * W.get("JK", 2))
             if "shortcut" in O and not free and len(shape) in (1, 2):
                 opts.extend(["rows"] * 2)
             if "shortcut" in O and len(shape) == 2:
@@ -583,6 +586,21 @@ class Gen:
             return [op, ["add", ["mul", ["lit", 3], ["eye", n]], ["mul", ["lit", 0.2], e(shape, (), d)]]]
         if op == "diag":
             return ["diag", e(shape, (), d)] if self.chance(1, 2) else ["diag", e((shape[0],), (), d)]
+        if op == "JK":
+            # explicit Jacobian / inverse Jacobian products (tangential projector J K on manifolds, K J = I)
+            J, K = ["geo", "Jacobian"], ["geo", "JacobianInverse"]
+            if shape == (g,):
+                v = e((g,), (), d)
+                k = self.pick(["JKv", "JKv", "KtJtv"])
+                if k == "JKv":
+                    return ["dot", J, ["dot", K, v]]
+                return ["dot", ["dot", v, J], K]
+            k = self.pick(["JK", "JK", "JKJK", "JKA"])
+            if k == "JK":
+                return ["dot", J, K]
+            if k == "JKJK":
+                return ["dot", ["dot", J, ["dot", K, J]], K]
+            return ["dot", ["dot", J, K], e((g, g), (), d)]
         if op == "rows":
             # rows/entries of one tensor, in or out of order (constructor shortcut shapes)
             n = shape[0]
